@@ -10,6 +10,7 @@ import (
 	"net/url"
 	"sort"
 	"strings"
+	"sync"
 )
 
 const (
@@ -570,8 +571,15 @@ func (s *Store) Leftovers(target *Config) []string {
 	return l
 }
 
-// Backend adapts Store to the HTTP simulator.
-type Backend struct{ S *Store }
+// Backend adapts Store to the HTTP simulator (the tool sends its requests
+// one after the other; the lock only guards against the monitor reading
+// while a request is served).
+type Backend struct {
+	mu       sync.Mutex
+	S        *Store
+	Rejected []string // verdicts of refused requests
+	Writes   []string // "METHOD path" of every write request
+}
 
 func (b *Backend) PolicyIDs() []string {
 	var l []string
@@ -605,5 +613,25 @@ func (b *Backend) Groups() []json.RawMessage {
 	return l
 }
 func (b *Backend) Apply(method, path string, q url.Values, body []byte) string {
-	return b.S.Apply(method, path, q, body)
+	b.mu.Lock()
+	defer b.mu.Unlock()
+	b.Writes = append(b.Writes, method+" "+path)
+	v := b.S.Apply(method, path, q, body)
+	if strings.HasPrefix(v, "rejected") {
+		b.Rejected = append(b.Rejected, method+" "+path+": "+v)
+	}
+	return v
+}
+
+// AddressedID returns the id of the object a write request addresses
+// (service, group or gateway policy).
+func AddressedID(path string) string {
+	for _, coll := range []string{"/policy/api/v1/infra/services/", "/policy/api/v1/infra/domains/default/groups/",
+		"/policy/api/v1/infra/domains/default/gateway-policies/"} {
+		if rest, ok := strings.CutPrefix(path, coll); ok {
+			id, _, _ := strings.Cut(rest, "/")
+			return id
+		}
+	}
+	return ""
 }
